@@ -45,6 +45,11 @@ Inductive site_class :=
                              looked up by module key, one futures Mutex per module around a lookup-only SymbolMap, a scratch value per OS
                              thread.  Not covered by the theorems (they are about the breakpad Symbolizer); listed so that the enumeration
                              of cells is complete and a NEW cell there is noticed *)
+  | PublicApiOnly         (* CpuContext::valid_registers(&self, valid) hands out the validity HashSet's own iterator for
+                             MinidumpContextValidity::Some; its only caller in the workspace is registers(), with All (the fixed REGISTERS
+                             slice).  What the processor iterates (calculate_heuristics) is MinidumpContext::valid_registers(): the fixed
+                             register list filtered by membership — c13_registers_order_independent — and the loop over it is a count and
+                             an any, which would not care about the order either: c13_register_scan_order_independent *)
   | InPlaceByIndex.       (* join_all over iter_mut(): future i owns slot i, results are not collected at all:
                              c13_walks_in_place_interleaving_independent, c13_join_by_index *)
 
@@ -55,7 +60,9 @@ Definition modelled_hash_sites : list ((string * string * string) * site_class) 
     "letmutcerts=certs.into_iter().collect::<Vec<_>>();certs.sort()"), SortedBeforeEmit);
   (("unwind/symbols/mod.rs", "stats", "result.extend(p.stats())"), MapIntoMap);
   (("breakpad-symbols/sym_file/walker.rs", "walk_with_stack_cfi",
-    "letmutexprs:Vec<_>=exprs.into_iter().collect();exprs.sort_unstable()"), SortedBeforeEmit)
+    "letmutexprs:Vec<_>=exprs.into_iter().collect();exprs.sort_unstable()"), SortedBeforeEmit);
+  (("minidump/context.rs", "valid_registers",
+    "MinidumpContextValidity::All=>CpuRegistersInner::Slice(Self::REGISTERS.iter()),MinidumpContextValidity::Some(valid)=>CpuRegistersInner::Set(valid.iter()"), PublicApiOnly)
 ].
 
 Definition modelled_concurrency_sites : list ((string * string * string) * site_class) := [
@@ -135,4 +142,27 @@ Definition modelled_ordered_container_fields : list ((string * string * string) 
   (("processor/processor.rs", "struct ExceptionDetails.instruction_registers", "BTreeSet<&'staticstr>"), OrderedContainer);
   (("processor/op_analysis.rs", "struct OpAnalysis.registers", "BTreeSet<&'staticstr>"), OrderedContainer);
   (("unwind/lib.rs", "struct StackFrame.unloaded_modules", "BTreeMap<String,BTreeSet<u64>>"), OrderedContainer)
+].
+
+(* code that C13/Model.v and C13/Unloaded.v model, as written, each with the Gallina definition that stands for it: an edit to
+   one of these six pieces of code changes the generated text and breaks c13_pinned_code_modelled until the model is brought in line *)
+Definition modelled_pinned_code : list ((string * string * string) * string) := [
+  (("processor/evil.rs", "handle_evil",
+    "{letmutcert_map=HashMap::new();letmutcerts=certs.into_iter().collect::<Vec<_>>();certs.sort();for(cert,modules)incerts{formoduleinmodules{cert_map.insert(module,cert.clone());}}cert_map}"),
+   "Model.cert_of / last_cert (later insert wins) on Unloaded.hm_of_members");
+  (("processor/processor.rs", "into_process_state/walk future",
+    "ifframe.module.is_none(){letmutoffsets=BTreeMap::new();forunloadedinunloaded_modules.modules_at_address(frame.instruction){letoffset=frame.instruction-unloaded.raw.base_of_image;offsets.entry(unloaded.name.clone()).or_insert_with(BTreeSet::new).insert(offset);}frame.unloaded_modules=offsets;}"),
+   "Unloaded.frame_offsets / offsets_loop (chk_sub, map_upsert)");
+  (("processor/processor.rs", "new",
+    "letunloaded_modules=matchdump.get_stream::<MinidumpUnloadedModuleList>(){Ok(module_list)=>module_list,Err(_)=>MinidumpUnloadedModuleList::new(),}"),
+   "Unloaded.unloaded_list_read (the [] branch)");
+  (("minidump/minidump.rs", "MinidumpUnloadedModuleList::modules_at_address",
+    "{self.modules_by_addr.iter().filter(move|(range,_idx)|range.contains(address)).map(move|(_range,idx)|&self.modules[*idx])}"),
+   "Unloaded.u_hits / u_contains");
+  (("minidump/minidump.rs", "MinidumpUnloadedModule::memory_range",
+    "{ifself.size()==0{returnNone;}Some(Range::new(self.base_address(),self.base_address().checked_add(self.size())?-1,))}"),
+   "Unloaded.u_range");
+  (("minidump/minidump.rs", "MinidumpUnloadedModuleList::read",
+    "ifraw.size_of_image==0||raw.size_of_imageasu64>(u64::MAX-raw.base_of_image){returnErr(Error::ModuleReadFailure);}"),
+   "Unloaded.u_bad / unloaded_list_read")
 ].
